@@ -114,6 +114,12 @@ inductive Act where
   | rawEvent (dest : Nat) (et : EType)    -- `circuit.findblock(dest).event(et)` (any object as type)
   deriving Repr, Inhabited
 
+/-- the value a scripted `cond_EVENT` callback returns after its statements -/
+inductive CondVal where
+  | const (c : Bool)         -- `return c`
+  | item (key : String)      -- `return fsm_event_data.get().get(key)`  (truthiness)
+  deriving Repr, Inhabited, DecidableEq
+
 inductive BKind where
   | probe      -- scripted block: events a, b (no requirements), need (requires `value`), ping (no-op)
   | input      -- edzed.Input
@@ -154,6 +160,7 @@ structure Blk where
   onExit : List (List Edge) := []               -- on_exit_STATE events
   onNotrans : List Edge := []
   timed : List (Option (EType × Nat)) := []     -- TIMERS: timed event and duration (0 = zero delay), by state
+  conds : List (String × List Act × CondVal) := []   -- fsm: cond_EVENT callbacks (user code: a script, then a value)
   -- repeat: `Repeat(dest=, etype=, count=)`; `_repeated_event = Event(dest, etype)` (no filters)
   rdest : Nat := 0
   retype : EType := .name "put"
@@ -566,8 +573,38 @@ def fsmTransition (dlv : Dlv) (b : Blk) (d : Nat) (stk0 : List Frame) (s : St) (
   andThen (fsmChain dlv b d stk0 (3 * b.nStates) s3 false ns) fun s4 =>
   fsmFinish dlv b d s4
 
-/-- `FSM._event` / `_ctx_event` (cond_EVENT callbacks and the `duration` item are not modelled) -/
-def fsmEvent (dlv : Dlv) (b : Blk) (d : Nat) (stk0 : List Frame) (s : St) (et : EType) : St × Res :=
+def CondVal.eval : CondVal → Data → Bool
+  | .const c, _ => c
+  | .item k, data => match data.get? k with | some v => v.truthy | Option.none => false
+
+/-- `self.is_initialized() and not all(self._run_cb('cond', etype))` for a named event with a transition:
+    the `cond_EVENT` callback is user code – it runs INSIDE the handler, the guard of the FSM set, before
+    `_fsm_event_active` is looked at; whatever it sends is an ordinary nested delivery; its exception leaves
+    the handler.  The result is `ret True` (go on) or `ret False` (event rejected). -/
+def fsmCond (dlv : Dlv) (b : Blk) (d : Nat) (s : St) (et : EType) (data : Data) : St × Res :=
+  match et with
+  | .name ev =>
+    if (s.out d).isUndef then (s, .ret (.bool true)) else     -- not initialised: conditions are not consulted
+    match b.conds.find? (·.1 == ev) with
+    | Option.none => (s, .ret (.bool true))
+    | some c => andThen (runActs dlv b d s c.2.1) fun s1 => (s1, .ret (.bool (c.2.2.eval data)))
+  | _ => (s, .ret (.bool true))                              -- Goto: no conditions
+
+/-- an accepted event: parked when a transition of this FSM is in progress, executed otherwise -/
+def fsmAccept (dlv : Dlv) (b : Blk) (d : Nat) (stk0 : List Frame) (s : St) (ns : Nat) : St × Res :=
+  if s.fsmActive d then
+    -- a request made while a transition is in progress (only possible through the window)
+    match s.nextEv d with
+    | some _ => (s, .exc .circuitError)          -- 'Forbidden event multiplication'
+    | Option.none => ({ s with nextEv := upd s.nextEv d (some ns) }, .ret (.bool true))
+  else
+    let p := fsmTransition dlv b d stk0 { s with fsmActive := upd s.fsmActive d true } ns
+    -- finally:
+    ({ p.1 with fsmActive := upd p.1.fsmActive d false }, p.2)
+
+/-- `FSM._event` / `_ctx_event` (the `duration` item is not modelled) -/
+def fsmEvent (dlv : Dlv) (b : Blk) (d : Nat) (stk0 : List Frame) (s : St) (et : EType) (data : Data) :
+    St × Res :=
   match fsmTarget b (s.fstate d) et with
   | .unknown => (s, .exc .unknownEvent)
   | .badState => (s, .exc .valueError)
@@ -576,15 +613,12 @@ def fsmEvent (dlv : Dlv) (b : Blk) (d : Nat) (stk0 : List Frame) (s : St) (et : 
     andThen (sendEdges dlv d s b.onNotrans [("trigger", .str "notrans"), ("state", .str "")])
       (fun s1 => (s1, .ret (.bool false)))
   | .to ns =>
-    if s.fsmActive d then
-      -- a request made while a transition is in progress (only possible through the window)
-      match s.nextEv d with
-      | some _ => (s, .exc .circuitError)          -- 'Forbidden event multiplication'
-      | Option.none => ({ s with nextEv := upd s.nextEv d (some ns) }, .ret (.bool true))
-    else
-      let p := fsmTransition dlv b d stk0 { s with fsmActive := upd s.fsmActive d true } ns
-      -- finally:
-      ({ p.1 with fsmActive := upd p.1.fsmActive d false }, p.2)
+    let p := fsmCond dlv b d s et data
+    match p.2 with
+    | .exc x => (p.1, .exc x)
+    | .ret v =>
+      if v.truthy then fsmAccept dlv b d stk0 p.1 ns
+      else (p.1, .ret (.bool false))           -- 'condition not satisfied': the event is rejected
 
 /-! ### `Repeat._event` and the re-sending main task (edzed/blocklib/sblocks1.py)
 
@@ -641,7 +675,7 @@ def callHandler (dlv : Dlv) (b : Blk) (d : Nat) (stk0 : List Frame) (s3 : St) (e
     (data : Data) : St × Res :=
   if b.kind = .fsm then
     -- no specialised handlers: `self._event(etype, data)`
-    inHandler d stk0 s3 data (fun s4 => fsmEvent dlv b d stk0 s4 et')
+    inHandler d stk0 s3 data (fun s4 => fsmEvent dlv b d stk0 s4 et' data)
   else if b.kind = .repeat then
     -- no specialised handlers either: `Repeat._event(etype, data)`
     inHandler d stk0 s3 data (fun s4 => repeatEvent dlv b d s4 et' data)
